@@ -66,7 +66,8 @@ def make_replayer():
         if ob.kind == 'len-value':
             want = ['len-value', 'addterm-value', 'addterm-exceptions']
         hits = {k: v for k, v in bat.result.items() if k in want}
-        info = {'battery': 'engine/replay/expr_battery.py on an overlay '
+        info = {'rerun': {'battery': 'expr', 'oracles': want},
+                'battery': 'engine/replay/expr_battery.py on an overlay '
                 'build of the current tree: f.value() of sums in which a '
                 'variable occurs twice with differently shaped coefficients '
                 'against the formula evaluated directly',
